@@ -13,3 +13,8 @@ import (
 func TestJsonStructs(t *testing.T) {
 	gomspec.PkgCheck(t, "json/generated-structs", true, "C15", kit.Pick(3, 50))
 }
+
+// TestKnown replays the fixed inputs of the known findings of C15 (known_findings.json).
+func TestKnown(t *testing.T) {
+	gomspec.KnownJsonEmbedsJsonCheck(t)
+}
